@@ -154,7 +154,8 @@ def main(tier):
         p = core.run([ddiff, "1971-01-01T00:00:00", "2100-01-01T00:00:00", "-f", "%rS"], timeout=20)
         if p.stdout.strip() != "4070908827":
             rep.disagree("rdiff-beyond-2^31-seconds", {"cmd": "ddiff 1971-01-01T00:00:00 2100-01-01T00:00:00 -f %rS", "got": p.stdout.strip(), "want": "4070908827"})
-        for d, off in ld[1:]:
+        # across every inserted second, and across the first table entry (1972-01-01, where TAI-UTC starts at 10 and nothing is inserted)
+        for d, off in ld:
             for start in (d * 86400 - 2, d * 86400 + 1):
                 for nn in ([-3, -2, -1, 1, 2, 3] if not quick else [-3, 2, 3]):
                     p = core.run([dadd, iso(start), "%+drs" % nn], timeout=20)
